@@ -254,8 +254,14 @@ class Action:
                 self.flow_scope_count = 0
             elif event.name.startswith("Start"):
                 self.context.update(event.arguments)
+                # The runtime also feeds the outgoing start event back as an input event:
+                # this must not reset the number of flows that share a running action
+                if (
+                    self.status != ActionStatus.STARTING
+                    and self.status != ActionStatus.STARTED
+                ):
+                    self.flow_scope_count = 1
                 self.status = ActionStatus.STARTING
-                self.flow_scope_count = 1
             elif event.name.startswith("Stop"):
                 self.context.update(event.arguments)
                 self.status = ActionStatus.STOPPING
